@@ -64,12 +64,21 @@ class Scenario:
             w = self.face.out[self.seen]
             self.seen += 1
             name, param, _, _ = enc.parse_interest(w)
-            if len(name) == len(self.prefix):
+            if enc.Name.to_str(name) == enc.Name.to_str(self.prefix):
                 t = -1
-            else:
+            elif enc.Name.to_str(name[:-1]) == enc.Name.to_str(self.base()) and \
+                    enc.Component.get_type(name[-1]) == enc.Component.TYPE_SEGMENT:
                 t = enc.Component.to_number(name[-1])
+            else:
+                t = -99        # an Interest for a name the object is not published under
             out.append({'t': t, 'cbp': bool(param.can_be_prefix), 'wire': w, 'life': param.lifetime})
         return out
+
+    def base(self):
+        """name under which the segments are published"""
+        if self.cfg.get('deep'):
+            return self.prefix + [enc.Component.from_version(7)]
+        return self.prefix
 
     def post(self):
         return {'yielded': list(self.yielded), 'nsent': self.seen, 'err': self.err if self.err in
@@ -87,7 +96,7 @@ class Scenario:
         mi = enc.MetaInfo()
         if cfg['fin'] >= 0:
             mi.final_block_id = enc.Component.from_segment(cfg['fin'])
-        return enc.make_data(self.prefix + [enc.Component.from_segment(s)], mi, b'S%d' % s)
+        return enc.make_data(self.base() + [enc.Component.from_segment(s)], mi, b'S%d' % s)
 
     def respond(self, act, last):
         if act == 'RespData':
@@ -96,7 +105,8 @@ class Scenario:
             self.vfail_next = True
             deliver(self.sess, self.face, self.data_for(last['t']))
         elif act == 'RespNack':
-            deliver(self.sess, self.face, enc.make_network_nack(last['wire'], 150))
+            self.nacks = getattr(self, 'nacks', 0) + 1
+            deliver(self.sess, self.face, enc.make_network_nack(last['wire'], (50, 100, 150)[(self.nacks + last['t']) % 3]))
         elif act == 'RespLost':
             self.sess.loop.advance_to(self.sess.loop.time() + LIFETIME / 1000.0)
         else:
@@ -223,7 +233,8 @@ def run(ctx):
             nseg = rng.randint(0, 12) if seg else 1
             cfg = {'n': nseg, 'seg': seg if nseg > 0 else True,
                    'fin': (rng.choice([-1, nseg - 1, nseg - 1, rng.randrange(nseg)]) if seg and nseg > 0 else -1),
-                   'disc': (rng.randrange(nseg) if seg and nseg > 0 else 0), 'retry': rng.randint(1, 5)}
+                   'disc': (rng.randrange(nseg) if seg and nseg > 0 else 0), 'retry': rng.randint(1, 5),
+                   'deep': bool(nseg > 0 and rng.random() < 0.4)}
             ploss, pn, pv = rng.choice([(0, 0, 0), (0.3, 0, 0), (0.5, 0.02, 0.02), (0.15, 0.05, 0.05)])
 
             def chooser(exists, rng=rng, ploss=ploss, pn=pn, pv=pv):
